@@ -4,6 +4,26 @@ import json, os
 HERE = os.path.dirname(os.path.abspath(__file__))
 
 CHECKS = {
+    "C01": dict(
+        cat="exploration", ref="5/C01",
+        text="Seeded search over instances x mask-admitted action schedules x perturbations for the 13 routing environments (MTVRP presets incl. all 16 variants): a float64 reference model of the problem runs alongside the real environment (refinement impl <= model, tick by tick); every admitted action taken must not be must_not for the reference and the final solution must have no problem-level violation. Sampled schedules with adversarial strategies; not exhaustive.",
+        note="Trusted: reference models in rlsim/ref/routing.py (written from the problem definitions), float band tau=1e-5*max(1,scale). MDCPDP under its one-depot reading. Generator instances at small sizes; boundary (equality) instances are exercised by C05.",
+        tech="deterministic simulation: seeded adversarial action scheduler + reference-model refinement check"),
+    "C02": dict(
+        cat="exploration", ref="5/C02",
+        text="Lock-step batches of all 21 constructive environments with deliberately unequal finishing ticks, stalls (padding of finished rows), reindex, snapshot/restore, alternate episodes and env pickle/deepcopy mid-episode; invariants after every tick (every row has an admitted action while any row runs, done monotone), history check against the problem's step bound, plus rl4co's own rollout()/random_policy loop under max_steps = bound (never an all-masked row, never the safety cap).",
+        note="Trusted: step bounds as stated by the property (reference step_bound()); EDA data are stubs; uniform quota per batch for selection envs. Dead ends that need a very specific instance remain sampled.",
+        tech="deterministic simulation: seeded lock-step scheduler with stall/reindex/restart faults + per-tick invariants and bounded-liveness check"),
+    "C03": dict(
+        cat="exploration", ref="5/C03",
+        text="Completed mask-confined episodes in every reward mode (mTSP minmax/sum, MDCPDP minmax/minsum/lateness x open/close x L1/L2, MTVRP open/closed, PCTSP/SPCTSP, SMTWTP, FJSP/JSSP/FFSP, FLP, MCP) in batches with unequal finishing ticks and snapshot/reindex/alternate perturbations; env.get_reward on the padded action matrix must equal the float64 objective recomputed from the original instance and the executed actions alone.",
+        note="Trusted: reference objectives (rlsim/ref/*.py); tolerance 1e-5*max(1,|ref|)*sqrt(steps). DPP/MDPP decap-simulator rewards are not modelled (not listed by the property).",
+        tech="deterministic simulation: seeded scheduler + independent objective oracle over recorded histories"),
+    "C05": dict(
+        cat="exploration", ref="5/C05",
+        text="Model-driven schedules: for tiny instances (generator and exact-arithmetic boundary instances) the reference enumerates its own complete feasible solution set (exhaustive when <= 400/2000 sequences, seeded sample otherwise, brute-force optimum always); the real environment is driven along each solution in batches: every action must be admitted, done exactly at completion, optimum reward equal; at every visited state each must-action of the reference that is not a documented pruning must be offered.",
+        note="Exhaustive over the reference's solution set per instance, sampled over instances; never enumerates the implementation's state space. Length/time-window equalities are observations only; capacity and prize equalities are obligations on boundary instances. FFSP only via C07.",
+        tech="deterministic simulation: reference-model-generated schedules (model-trace) replayed on the real environment"),
     "C04": dict(
         cat="exploration", ref="5/C04",
         text="Seeded search over batch compositions, action schedules and perturbations: each instance is driven solo and inside scheduled batches (copies, strangers, other sizes/positions) with stalls of finished rows, mid-episode reindex/replicate, snapshot/restore and alternate episodes on the same env object; masks, finishing tick and reward must coincide. Sampled, not exhaustive.",
